@@ -21,18 +21,18 @@ SetStyle(m)     == multi' = m /\ m \in 0..2 /\ UNCHANGED <<nl, quote, pad, comme
 \* 3 the reverse, 4 every second name quoted
 SetQuotes(q)    == quote' = q /\ q \in 0..4 /\ UNCHANGED <<nl, multi, pad, comments, lead, tail>>
 Pad(n)          == pad' = n /\ n \in 0..2 /\ UNCHANGED <<nl, multi, quote, comments, lead, tail>>
-Comments(n)     == comments' = n /\ n \in 0..3 /\ UNCHANGED <<nl, multi, quote, pad, lead, tail>>
+Comments(n)     == comments' = n /\ n \in 0..4 /\ UNCHANGED <<nl, multi, quote, pad, lead, tail>>
 LeadingBlank(n) == lead' = n /\ n \in 0..1 /\ UNCHANGED <<nl, multi, quote, pad, comments, tail>>
 TrailingBlank(n) == tail' = n /\ n \in {0, 2} /\ UNCHANGED <<nl, multi, quote, pad, comments, lead>>
 
 Next == \/ \E k \in {"lf", "crlf", "cr"} : SetNewline(k)
-        \/ \E m \in 0..3 : SetStyle(m) \/ Pad(m) \/ Comments(m)
+        \/ \E m \in 0..4 : SetStyle(m) \/ Pad(m) \/ Comments(m)
         \/ \E q \in 0..4 : SetQuotes(q)
         \/ \E n \in 0..2 : LeadingBlank(n) \/ TrailingBlank(n)
 Spec == Init /\ [][Next]_vars
 
 \* every layout is reachable from every other one: the orbit is one connected class
-TypeOK == nl \in {"lf", "crlf", "cr"} /\ multi \in 0..2 /\ quote \in 0..4 /\ pad \in 0..2 /\ comments \in 0..3 /\ lead \in 0..1 /\ tail \in {0, 2}
+TypeOK == nl \in {"lf", "crlf", "cr"} /\ multi \in 0..2 /\ quote \in 0..4 /\ pad \in 0..2 /\ comments \in 0..4 /\ lead \in 0..1 /\ tail \in {0, 2}
 Emit == PrintT(ToJson([nl |-> nl, multi |-> multi, quote |-> quote, pad |-> pad, comments |-> comments,
                        lead_blank |-> lead, tail_blank |-> tail]))
 ===============================================================================
